@@ -312,35 +312,45 @@ func ruleP09Notation(p *Prog, r *Report) {
 	df := p.method("klog", "date", "ToString")
 	if r.anchorFn(rule, df, "date.ToString") {
 		okFmt, okSep := false, false
-		eachInstr(df, func(in ssa.Instruction) {
+		// the separator(s) handed to Sprintf: "-" exactly under UseDashes, "/" otherwise — chosen
+		// by an if, a helper, a switch …
+		sepOK := func(v ssa.Value) bool {
+			var dash, slash, other bool
+			for _, row := range valueRows(v, 0, map[ssa.Value]bool{}) {
+				s, isS := constString(row.val)
+				if !isS {
+					other = true
+					continue
+				}
+				useDashes, decided := true, false
+				for _, g := range row.guards {
+					if _, fld := fieldLoad(g.Cond); fld == "UseDashes" {
+						useDashes, decided = g.Pol, true
+					}
+					if u, isU := g.Cond.(*ssa.UnOp); isU && u.Op == token.NOT {
+						if _, fld := fieldLoad(u.X); fld == "UseDashes" {
+							useDashes, decided = !g.Pol, true
+						}
+					}
+				}
+				switch {
+				case s == "-" && useDashes:
+					dash = true
+				case s == "/" && decided && !useDashes:
+					slash = true
+				default:
+					other = true
+				}
+			}
+			return dash && slash && !other
+		}
+		eachVInstr(df, func(in ssa.Instruction) {
 			if c, ok := in.(ssa.CallInstruction); ok && staticCallee(c) != nil && staticCallee(c).String() == "fmt.Sprintf" {
 				if s, isS := constString(c.Common().Args[0]); isS && s == "%04d%s%02d%s%02d" {
 					okFmt = true
-				}
-			}
-			if ph, ok := in.(*ssa.Phi); ok {
-				var dash, slash bool
-				for i, e := range ph.Edges {
-					s, isS := constString(e)
-					if !isS {
-						continue
+					if els, isL := sliceLitElems(c.Common().Args[1]); isL && len(els) == 5 {
+						okSep = sepOK(els[1]) && sepOK(els[3])
 					}
-					pb := ph.Block().Preds[i]
-					useDashes := true
-					for _, g := range append(guardsOf(pb), edgeGuard(pb, ph.Block())...) {
-						if _, fld := fieldLoad(g.Cond); fld == "UseDashes" {
-							useDashes = g.Pol
-						}
-					}
-					if s == "-" && useDashes {
-						dash = true
-					}
-					if s == "/" && !useDashes {
-						slash = true
-					}
-				}
-				if dash && slash {
-					okSep = true
 				}
 			}
 		})
